@@ -57,12 +57,38 @@ def script(rng, self, n, p=0.35):
         return '-'
     acts = []
     for _ in range(rng.choice([1, 1, 2, 3])):
-        j = rng.randrange(max(n, 1))
-        k = rng.choice('eddddxx')
+        j = self if rng.random() < 0.3 else rng.randrange(max(n, 1))      # re-entrant use: act on oneself
+        k = rng.choice('eeddddxxi')
         if k == 'x' and j == self:
             k = 'd'
-        acts.append('%s%d' % (k, j))
+        if k == 'i':
+            sg = sorted(rng.sample(VALID, rng.choice([1, 1, 2])))
+            acts.append('i%d:%s:%s' % (j, '.'.join(map(str, sg)), rng.choice('op')))
+            if rng.random() < 0.7:
+                acts.append('e%d' % j)
+        else:
+            acts.append('%s%d' % (k, j))
     return ','.join(acts)
+
+
+def gen_self_scripts():
+    """directed: the callback of event 0 acts on event 0 itself (re-arms, re-initialises), one-shot and persistent,
+    alone / with another event on the same signal / with another event on another signal of the same loop"""
+    scripts = ['e0', 'e0,d0', 'd0,e0', 'd0', 'e0,d0,e0', 'i0:2:o,e0', 'i0:2:p,e0', 'i0:1.2:o,e0', 'i0:1:p,e0', 'i0:2:o', 'i0:4:p,e0,d0']
+    for mode in 'op':
+        for sc in scripts:
+            for ctx in range(3):
+                ops = ['eng e', 'sa 1 h0 1 2', 'sa 2 a1 2 1', 'sa 4 i 0 0', 'new 0 ' + sc]
+                if ctx: ops.append('new 0 -')
+                ops.append('init 0 1 ' + mode)
+                if ctx == 1: ops.append('init 1 1 p')
+                if ctx == 2: ops.append('init 1 2 p')
+                ops.append('en 0')
+                if ctx: ops.append('en 1')
+                ops += ['raise 1', 'pass 0', 'raise 1', 'raise 2', 'pass 0', 'raise 2', 'raise 4', 'pass 0', 'dis 0']
+                if ctx: ops.append('dis 1')
+                ops += ['raise 1', 'raise 2', 'raise 4', 'pass 0']
+                yield ops
 
 
 def gen_case(rng, nops, scripts=0.35, bad=0.08):
@@ -175,6 +201,8 @@ def gen(rng, tier):
     n = 350 if tier == 'quick' else 5000
     for d in DIRECTED:
         yield d
+    for ops in gen_self_scripts():
+        yield ops
     if tier == 'thorough':
         # exhaustive: every op sequence of length <= 4 over a small alphabet (2 loops, one shared signal, one-shot + persistent,
         # a callback that deletes a sibling)
